@@ -139,7 +139,7 @@ def run_corr(pid, name, imports, case_type, cases, lit, agree, shard=250, timeou
     `show` (optional) is a Coq function case_type -> T whose value is printed for disagreeing cases."""
     res = CorrResult()
     res.n_cases = len(cases)
-    d = os.path.join(BUILD, "cases", pid)
+    d = os.path.join(BUILD, "cases", f"{pid}_{os.getpid()}")   # per process: concurrent runs never share case files
     os.makedirs(d, exist_ok=True)
     for f in os.listdir(d):
         if f.startswith(name + "_"):
@@ -182,12 +182,15 @@ def run_corr(pid, name, imports, case_type, cases, lit, agree, shard=250, timeou
             mtxt = ""
         for i in idx:
             res.bad.append((shards[k][i], mtxt))
-    for f in os.listdir(d):
-        if f.endswith((".vo", ".glob", ".vok", ".vos", ".aux")):
-            try:
-                os.unlink(os.path.join(d, f))
-            except OSError:
-                pass
+    if res.bad or res.errors:
+        for f in os.listdir(d):    # keep the .v case files of a failing run for inspection, drop compiled output
+            if f.endswith((".vo", ".glob", ".vok", ".vos", ".aux")):
+                try:
+                    os.unlink(os.path.join(d, f))
+                except OSError:
+                    pass
+    else:
+        shutil.rmtree(d, ignore_errors=True)
     return res
 
 
